@@ -184,6 +184,7 @@ package flate
 //@   modifies state.bits, state.bitsLen, state.input, *ctx
 //@   ensures[C03 classify] err == nil || err == errEndInput || err == errInvalidBlock
 //@   ensures[C03 C04 bits] stBase(state) && remBits(state) <= old(remBits(state)) && len(state.input) <= old(len(state.input)) && sameobj(state.input, old(state.input)) && (state.input == nil) == (old(state.input) == nil)
+//@   ensures[C03 lengths] lensOK(ctx)
 //@   loop 1 invariant 0 <= curr && -1 <= prev && prev < curr && err == nil && (count == ctx.litCount[:] || count == ctx.distCount[:]) && -64 <= bitsLen && bitsLen <= 64 && (bitsLen < 0 ==> len(input) == 0) && len(input) <= 1073741824 && sameobj(input, old(state.input)) && len(input) <= old(len(state.input)) && (input == nil) == (old(state.input) == nil) && 8*len(input) + int(bitsLen) <= old(remBits(state)) && -7 <= bitsLen
 //@   loop 1 invariant lensOK(ctx)
 //@   loop 2 invariant -1 <= rangeindex && rangeindex < size && 0 <= size && size <= 8 && size <= len(input) && (size > 0 ==> 0 <= atentry(bitsLen)) && 8*size <= 64 - int(atentry(bitsLen)) && bitsLen == atentry(bitsLen) + int32(8*(rangeindex+1))
@@ -202,11 +203,33 @@ package flate
 //@   ensures result == nil ==> clcOK(&state.dynHdr.clcTable)
 //@   ensures stBase(state) && (result != errEndInput ==> state.bitsLen >= 0) && remBits(state) <= old(remBits(state)) && len(state.input) <= old(len(state.input)) && sameobj(state.input, old(state.input)) && (state.input == nil) == (old(state.input) == nil)
 
+//@ pure nc2(c []uint16) uint32 = uint32(c[1]) << 1
+//@ pure nc3(c []uint16) uint32 = (nc2(c) + uint32(c[2])) << 1
+//@ pure nc4(c []uint16) uint32 = (nc3(c) + uint32(c[3])) << 1
+//@ pure nc5(c []uint16) uint32 = (nc4(c) + uint32(c[4])) << 1
+//@ pure nc6(c []uint16) uint32 = (nc5(c) + uint32(c[5])) << 1
+//@ pure nc7(c []uint16) uint32 = (nc6(c) + uint32(c[6])) << 1
+//@ pure nc8(c []uint16) uint32 = (nc7(c) + uint32(c[7])) << 1
+//@ pure nc9(c []uint16) uint32 = (nc8(c) + uint32(c[8])) << 1
+//@ pure nc10(c []uint16) uint32 = (nc9(c) + uint32(c[9])) << 1
+//@ pure nc11(c []uint16) uint32 = (nc10(c) + uint32(c[10])) << 1
+//@ pure nc12(c []uint16) uint32 = (nc11(c) + uint32(c[11])) << 1
+//@ pure nc13(c []uint16) uint32 = (nc12(c) + uint32(c[12])) << 1
+//@ pure nc14(c []uint16) uint32 = (nc13(c) + uint32(c[13])) << 1
+//@ pure nc15(c []uint16) uint32 = (nc14(c) + uint32(c[14])) << 1
+// kraft15: the code space used by the counted lengths, in units of 2^-15 (a complete code uses exactly 32768).
+//@ pure kraft15(c []uint16) uint32 = nc15(c) + uint32(c[15])
+//@ pure lens15(t []huffCode) bool = forall k :: 0 <= k && k < len(t) ==> t[k].codeAndLength>>24 <= 15
+
 //@ func setCodes
-//@   trusted "not yet verified: canonical code assignment with over-subscription check"
-//@   requires len(count) >= 16
+//@   requires len(count) >= 16 && len(table) <= 514 && lens15(table)
 //@   modifies table[*]
-//@   ensures ret == 0 || ret == -1
+//@   ensures[C03 classify] ret == 0 || ret == -1
+//@   ensures[C03 over-subscribed-rejected] ret == 0 ==> kraft15(count) <= 32768
+//@   ensures[C03 complete-or-degenerate] ret == 0 ==> kraft15(count) == 32768 || kraft15(count) == 0 || (kraft15(count) == 16384 && count[1] == 1)
+//@   ensures[C03 lengths-kept] forall k :: 0 <= k && k < len(table) ==> table[k].codeAndLength>>24 == old(table[k].codeAndLength>>24)
+//@   loop 1 invariant 2 <= i && i <= 16 && nextCode[0] == 0 && nextCode[1] == 0 && (i > 2 ==> nextCode[2] == nc2(count)) && (i > 3 ==> nextCode[3] == nc3(count)) && (i > 4 ==> nextCode[4] == nc4(count)) && (i > 5 ==> nextCode[5] == nc5(count)) && (i > 6 ==> nextCode[6] == nc6(count)) && (i > 7 ==> nextCode[7] == nc7(count)) && (i > 8 ==> nextCode[8] == nc8(count)) && (i > 9 ==> nextCode[9] == nc9(count)) && (i > 10 ==> nextCode[10] == nc10(count)) && (i > 11 ==> nextCode[11] == nc11(count)) && (i > 12 ==> nextCode[12] == nc12(count)) && (i > 13 ==> nextCode[13] == nc13(count)) && (i > 14 ==> nextCode[14] == nc14(count)) && (i > 15 ==> nextCode[15] == nc15(count))
+//@   loop 2 invariant 0 <= i && i <= len(table) && (forall k :: 0 <= k && k < len(table) ==> table[k].codeAndLength>>24 == old(table[k].codeAndLength>>24))
 
 //@ func (*smallHuffCodeTable).genForDists
 //@   trusted "not yet verified: distance decoding table construction"
